@@ -28,3 +28,32 @@ def coh_after_fetch(model, payload):
     steps.append("has_blob(k0) -> wrapped=%r bare=%r" % (a, b))
     bad = (got != exp) or (a != b)
     return {"reproduced": bool(bad), "detail": "; ".join(steps), "inputs": {"capacity": cap, "key": key, "ops": ["fetch_blob", "has_blob"]}}
+
+
+def cache_option(model, payload):
+    """set_store(cache_objects=...): documented decoding None/False/0 -> no cache, True -> 10, n > 0 -> n, n < 0 -> unbounded"""
+    import sys
+    import dds
+    import dds._api as api
+    from dds._lru_store import LRUCacheStore, default_cache_size
+    from dds.structures import DDSException
+
+    bad = []
+    for opt, want in ((None, None), (False, None), (0, None), (True, default_cache_size), (1, 1), (7, 7), (-1, sys.maxsize // 2), (-5, sys.maxsize // 2)):
+        dds.set_store("memory", cache_objects=opt)
+        st = api._store()
+        got = st._num_elem if isinstance(st, LRUCacheStore) else None
+        if got != want:
+            bad.append("cache_objects=%r installs capacity %r, documented %r" % (opt, got, want))
+    for opt in ("3", 2.5):
+        try:
+            dds.set_store("memory", cache_objects=opt)
+            bad.append("cache_objects=%r accepted" % (opt,))
+        except DDSException:
+            pass
+        except BaseException as e:
+            bad.append("cache_objects=%r raised %s" % (opt, type(e).__name__))
+    dds.set_store("memory")
+    if bad:
+        return {"reproduced": True, "detail": "; ".join(bad[:4]), "inputs": {"options": bad}}
+    return {"reproduced": False, "detail": "every option value decodes as documented"}
